@@ -148,6 +148,16 @@ def _spec_worker(args):
                     if back.rules_dict[c] != spec.rules_dict[c]:
                         why.append(f"rule differs for {c!r}: {type(spec.rules_dict[c]).__name__} strategy {spec.rules_dict[c].strategy!r}")
                 out["problems"].append(("spec-roundtrip-not-equal", f"{tag}: {why[:3]}"))
+            # "the same rules for the same classes": == of rules does not look at the children, so they are compared here, with
+            # the labels the specification gives its classes
+            for c in set(back.rules_dict) & set(spec.rules_dict):
+                rb, rs = back.rules_dict[c], spec.rules_dict[c]
+                if tuple(rb.children) != tuple(rs.children):
+                    out["problems"].append(("spec-roundtrip-rule-children-differ", f"{tag}: {c!r}: {rs.children!r} -> {rb.children!r}"))
+                    break
+                if back.get_label(c) != spec.get_label(c):
+                    out["problems"].append(("spec-roundtrip-labels-differ", f"{tag}: {c!r}: {spec.get_label(c)} -> {back.get_label(c)}"))
+                    break
             if [specrun.st(back.get_terms(n)) for n in range(N + 1)] != [specrun.st(spec.get_terms(n)) for n in range(N + 1)]:
                 out["problems"].append(("spec-roundtrip-counts-differ", tag))
             if rt(back.to_jsonable()) != j:
@@ -254,6 +264,12 @@ def run(tier, seed, factor=1):
     N = common.scale(tier, 5, 7)
     cfgs = speccheck.make_configs(rnd, common.scale(tier, 160, 2000) * factor)
     cfgs += [specrun.rand_config(rnd, "packver") for _ in range(common.scale(tier, 24, 200) * factor)]
+    drnd = random.Random(seed * 1299709 + 18)
+    for _ in range(common.scale(tier, 24, 200) * factor):  # verification rules that have a child
+        c = specrun.rand_config(drnd, None)
+        c.update(depver=[drnd.choice(["a", "b", "ab", "ba", "aa"])], prefver=None, packver=None, rot=False, sep=None, reverse_needed=False, prefix="",
+                 iterative=False)
+        cfgs.append(c)
     outs = specrun.pool_map(spec_worker, [(c, N) for c in cfgs])
     specrun.quiet()
     pairs = []
